@@ -54,6 +54,8 @@ type QVar struct {
 	Type string
 }
 
+var reChanInv = regexp.MustCompile(`^chan\s+([A-Za-z_][A-Za-z_0-9]*)\s*:\s*(.+)$`)
+
 func (e *EIdent) String() string { return e.Name }
 func (e *EInt) String() string   { return e.Val }
 func (e *EFloat) String() string { return e.Val }
@@ -571,6 +573,7 @@ type FuncContract struct {
 	SyncGo      [][2]int // {go ordinal, select ordinal}: the goroutine has finished when the select returns
 	ReplayHints []string // extra candidate strings for the bounded replay search
 	ReplayChecks []*Clause // executable oracle clauses used only by replay tests (never proof obligations)
+	ChanInvs   []*ChanInv // channel invariants of local channels (chaninv.go)
 	OnlyCalls  []string // if set: every call with possible effects must be to one of these callees
 	LocalsLine string
 }
@@ -645,7 +648,7 @@ func ParseContractFile(path string) (*ContractFile, error) {
 	// First join continuation lines.  A //@ line starts a new clause if its
 	// first word is a keyword; otherwise it continues the previous clause.
 	keywords := map[string]bool{"func": true, "iface": true, "extern": true, "requires": true, "ensures": true, "loop": true,
-		"calls": true, "spec": true, "axiom": true, "lemma": true, "ghost": true, "modifies": true, "alias": true, "pure": true, "locals": true, "end": true, "at": true, "only": true, "replay": true, "sync": true}
+		"calls": true, "spec": true, "axiom": true, "lemma": true, "ghost": true, "modifies": true, "alias": true, "pure": true, "locals": true, "end": true, "at": true, "only": true, "replay": true, "sync": true, "chan": true}
 	var raws []rawClause
 	for i, line := range strings.Split(string(data), "\n") {
 		tl := strings.TrimSpace(line)
@@ -867,6 +870,16 @@ func ParseContractFile(path string) (*ContractFile, error) {
 					cur.Modifies = append(cur.Modifies, f)
 				}
 			}
+		case reChanInv.MatchString(body):
+			if cur == nil {
+				return nil, fmt.Errorf("%s:%d: clause outside func", path, rc.line)
+			}
+			m := reChanInv.FindStringSubmatch(body)
+			cl, err := mk("chaninv", strings.TrimSpace(m[2]), rc.line)
+			if err != nil {
+				return nil, err
+			}
+			cur.ChanInvs = append(cur.ChanInvs, &ChanInv{Name: m[1], Cl: cl})
 		case strings.HasPrefix(body, "sync go#"):
 			if cur == nil {
 				return nil, fmt.Errorf("%s:%d: clause outside func", path, rc.line)
